@@ -88,6 +88,38 @@ func encode(m *fga.Model, ts *typesystem.TypeSystem, base, cA, cB []fga.Tuple, s
 	return sb.String()
 }
 
+// looseCondition: the tuple carries a condition that no restriction of ITS shape (object / wildcard / userset) allows.
+func looseCondition(m *fga.Model, t fga.Tuple) bool {
+	if t.Cond == "" {
+		return false
+	}
+	rd := m.FindRel(fga.TypeOf(t.Obj), t.Rel)
+	if rd == nil {
+		return false
+	}
+	ut, uid, urel := fga.UserParts(t.User)
+	for _, x := range rd.Restrs {
+		if x.Typ != ut || x.Cond != t.Cond {
+			continue
+		}
+		switch {
+		case urel != "":
+			if x.Rel == urel && !x.Wild {
+				return false
+			}
+		case uid == "*":
+			if x.Wild {
+				return false
+			}
+		default:
+			if !x.Wild && x.Rel == "" {
+				return false
+			}
+		}
+	}
+	return true
+}
+
 func gen(r *hx.Rand, n int, tier string, emit func(string), st *hx.Stats) {
 	for i := 0; i < n; i++ {
 		c := r.Fork()
@@ -102,8 +134,11 @@ func gen(r *hx.Rand, n int, tier string, emit func(string), st *hx.Stats) {
 		all := fga.GenTuples(c, m, 6+c.Intn(22))
 		// split: a tuple may move to a contextual set only if it could be written
 		var base, cA, cB []fga.Tuple
+		// tuples that only the lax validateCondition accepts (finding F16/F25: condition declared on a restriction
+		// of another shape of the user type) become contextual only in one case out of six
+		allowLoose := c.Chance(1, 6)
 		for _, t := range all {
-			movable := validation.ValidateTupleForWrite(ts, t.Key()) == nil
+			movable := validation.ValidateTupleForWrite(ts, t.Key()) == nil && (allowLoose || !looseCondition(m, t))
 			switch k := c.Intn(10); {
 			case movable && k < 3 && len(cA) < 8:
 				cA = append(cA, t)
@@ -165,6 +200,12 @@ func gen(r *hx.Rand, n int, tier string, emit func(string), st *hx.Stats) {
 		st.Add("requests", 2*k)
 		if len(cA)+len(cB) > 0 {
 			st.Inc("with-contextual")
+		}
+		if allowLoose {
+			st.Inc("loose-condition-tuples-allowed")
+		}
+		if !m.Stratified() {
+			st.Inc("nonstratified")
 		}
 	}
 }
